@@ -10,6 +10,14 @@ impl ParsedPacket {
         && self.edns_version == o.edns_version && self.ext_flags == o.ext_flags
         && self.maybe_compressed == o.maybe_compressed && self.max_payload == o.max_payload && self.cached == o.cached
     }
+    // every field except the bytes and the question cache is the same
+    pub open spec fn same_meta_nocache(&self, o: &ParsedPacket) -> bool {
+        self.offset_question == o.offset_question && self.offset_answers == o.offset_answers
+        && self.offset_nameservers == o.offset_nameservers && self.offset_additional == o.offset_additional
+        && self.offset_edns == o.offset_edns && self.edns_count == o.edns_count && self.ext_rcode == o.ext_rcode
+        && self.edns_version == o.edns_version && self.ext_flags == o.ext_flags
+        && self.maybe_compressed == o.maybe_compressed && self.max_payload == o.max_payload
+    }
 }
 // C12: the bits a flags update may touch: QR AA TC RD RA Z AD CD
 pub open spec fn flag_mask() -> u16 { 0x87f0u16 }
